@@ -14,7 +14,7 @@ matrix (k < width) the identities are
 so a product whose row/column polynomials differ from these (e.g. A[t-k][i] for A[t-k][k]) is a
 different algorithm whose result differs as soon as the band is wider than the tested windows.
 """
-from ..expr import ExprBuilder, show, stores, Poly, root_of
+from ..expr import ExprBuilder, show, stores, Poly, root_of, walk
 from ..loops import LoopSyms, factors, band_entry, vec_entry, loop_var_parts, resolve_splits
 from .. import paths
 from . import common as cm
@@ -236,3 +236,185 @@ def check(ctx, p):
             ctx.ok("C05-R5", "solve(): ldl_factorization(self) dominates substitutions(self), whose result is returned", s.loc())
         else:
             ctx.fail("C05-R5", s.path, "order", "solve() does not factorise exactly once before substituting (ldl calls %d, substitution calls %d, returns %s)" % (len(c1), len(c2), show(ret)[:80]), s.loc())
+
+
+# ---------------------------------------------------------------------------------------------
+# R6: assembly of W'U^-1 W and W'U^-1 mu
+
+
+def _item_of(n):
+    if n[0] == "field" and n[2] == "0" and n[1][0] == "variant" and n[1][2] == "Some" and n[1][1][0] == "call" and n[1][1][1].endswith("::next"):
+        return n[1][1]
+    return None
+
+
+def _symbolise(e):
+    """name the iterator items of calc_wuw_and_wum: T (frame), E = (window index, window),
+    O = outer tap (WindowIndex, coefficient) of E.1 from index 0, IN = inner tap from index(O)"""
+    from ..loops import rewrite
+
+    def f(n):
+        c = _item_of(n)
+        if c is None:
+            return None
+        nm, a = c[1], c[2][0]
+        if "Enumerate" in nm and a[0] == "call" and a[1].endswith("Iterator::enumerate") and show(a[2][0]) == "model::voice::window::Windows::iter(windows)":
+            return ("sym", "E")
+        if a[0] == "call" and a[1].endswith("Window::iter_rev") and len(a[2]) == 2:
+            w, s = a[2]
+            if w == ("field", ("sym", "E"), "1"):
+                if s[0] == "c" and s[1] == 0:
+                    return ("sym", "O")
+                if s[0] == "call" and s[1].endswith("WindowIndex::index") and s[2][0] == ("field", ("sym", "O"), "0"):
+                    return ("sym", "IN")
+        lv = loop_var_parts(n)
+        if lv and lv[0] == "up" and show(lv[1]) == "0" and show(lv[2]) == "len(parameters[0])":
+            return ("sym", "T")
+        return None
+    return rewrite(e, f)
+
+
+def check_assembly(ctx, p):
+    ctx.rule("C05-R6", "assembly of the normal equations in calc_wuw_and_wum: wum[t] += w_i(o) * ivar_i[t - pos(o)] * mean_i[t - pos(o)] and wuw[t][idx(o') - idx(o)] += w_i(o) * ivar_i[t - pos(o)] * w_i(o') for every window i, every tap o and every tap o' at or after o, under 0 <= t - pos(o) < length and t + (idx(o') - idx(o)) < length; iter_rev yields (WindowIndex(start + k, width), coefficients[start + k]); position = index - width/2")
+    fn = M + "calc_wuw_and_wum"
+    b = cm.body_or_fail(ctx, p, "C05-R6", fn)
+    if b is None:
+        return
+    eb = ExprBuilder(b)
+    T, POS, IO, II, CO, CI, L = (Poly.atom((x,)) for x in ("T", "POS", "IDXO", "IDXI", "CO", "CI", "L"))
+    SO, SI, SE = ("sym", "O"), ("sym", "IN"), ("sym", "E")
+
+    def atomize(e):
+        if e == ("sym", "T"):
+            return ("T",)
+        if e[0] == "call" and e[1].endswith("WindowIndex::position") and e[2][0] == ("field", SO, "0"):
+            return ("POS",)
+        if e[0] == "call" and e[1].endswith("WindowIndex::index") and e[2][0] == ("field", SO, "0"):
+            return ("IDXO",)
+        if e[0] == "call" and e[1].endswith("WindowIndex::index") and e[2][0] == ("field", SI, "0"):
+            return ("IDXI",)
+        if e == ("field", SO, "1"):
+            return ("CO",)
+        if e == ("field", SI, "1"):
+            return ("CI",)
+        if e[0] == "len" and show(e[1]) == "parameters[0]":
+            return ("L",)
+        # parameters[E.0][k].c
+        if e[0] == "field" and e[2] in ("0", "1") and e[1][0] == "idx" and e[1][1][0] == "idx" and show(e[1][1][1]) == "parameters" and e[1][1][2] == ("field", SE, "0"):
+            return ("P", to_poly(e[1][2], atomize).key(), e[2])
+        return None
+    from ..expr import to_poly
+    k = T - POS
+    kkey = k.key()
+    sts = stores(b, eb)
+    ctx.anchor("C05-R6", "stores in calc_wuw_and_wum", len(sts), 2, b.loc())
+    seen = set()
+    for bb, i, st, tgt, root, chain, val in sts:
+        loc = cm.loc_of(st["span"])
+        tg, vl = _symbolise(tgt), _symbolise(val)
+        gl = [(g[0], _symbolise(g[1])) for g in paths.guards(b, bb, eb) if len(g) > 1 and isinstance(g[1], tuple)]
+        if not (vl[0] == "bin" and vl[1] == "Add" and vl[2] == tg):
+            ctx.fail("C05-R6", fn, "store form", "an assembly store is not an accumulation `x += term`: %s" % show(vl)[:160], loc)
+            continue
+        term = to_poly(vl[3], atomize)
+        is_vec = tg[0] == "idx" and tg[1][0] != "idx"
+        row = to_poly(tg[2] if is_vec else tg[1][2], atomize)
+        # loops and bounds that must enclose the store
+        need = {"t-loop": False, "windows": False, "outer taps": False, "k>=0": False, "k<len": False}
+        extra = []
+        inner_need = {"inner taps": False, "t+j<len": False}
+        for kind, ge in gl:
+            c = ge
+            if kind == "some" and c[0] == "call" and "Range" in c[1] and show(c[2][0]) == "std::ops::Range::Range{start: 0, end: len(parameters[0])}":
+                need["t-loop"] = True
+            elif kind == "some" and c[0] == "call" and "Enumerate" in c[1] and show(c[2][0]) == "std::iter::Iterator::enumerate(model::voice::window::Windows::iter(windows))":
+                need["windows"] = True
+            elif kind == "some" and c[0] == "call" and c[2][0][0] == "call" and c[2][0][1].endswith("Window::iter_rev") and c[2][0][2][0] == ("field", SE, "1"):
+                s = c[2][0][2][1]
+                if s[0] == "c" and s[1] == 0:
+                    need["outer taps"] = True
+                elif to_poly(s, atomize) == IO:
+                    inner_need["inner taps"] = True
+                else:
+                    extra.append((kind, show(c)[:80]))
+            elif kind in ("true", "false") and c[0] == "bin":
+                pos = kind == "true"
+                a_, b_ = to_poly(c[2], atomize), to_poly(c[3], atomize)
+                op = c[1]
+                if a_ in (CO, CI) and b_ == Poly.const(0) and ((op == "Eq" and not pos) or (op == "Ne" and pos)):
+                    continue  # skipping zero coefficients changes nothing
+                if a_ == k and b_ == Poly.const(0) and ((op == "Lt" and not pos) or (op == "Ge" and pos)):
+                    need["k>=0"] = True
+                elif a_ == k and b_ == L and ((op == "Ge" and not pos) or (op == "Lt" and pos)):
+                    need["k<len"] = True
+                elif a_ == T + II - IO and b_ == L and ((op == "Ge" and not pos) or (op == "Lt" and pos)):
+                    inner_need["t+j<len"] = True
+                else:
+                    extra.append((kind, show(c)[:80]))
+            else:
+                extra.append((kind, show(c)[:80]))
+        PV = Poly.atom(("P", kkey, "1"))
+        PM = Poly.atom(("P", kkey, "0"))
+        if is_vec:
+            want, name = CO * PV * PM, "wum[t] += w(o) * ivar[t - pos(o)] * mean[t - pos(o)]"
+            okshape = row == T
+            missing = [n for n, v in need.items() if not v]
+        else:
+            want, name = CO * PV * CI, "wuw[t][idx(o') - idx(o)] += w(o) * ivar[t - pos(o)] * w(o')"
+            col = to_poly(tg[2], atomize)
+            okshape = row == T and col == II - IO
+            missing = [n for n, v in list(need.items()) + list(inner_need.items()) if not v]
+        if term == want and okshape and not missing and not extra:
+            seen.add("wum" if is_vec else "wuw")
+            ctx.ok("C05-R6", name + "  (window i = enumerate index; guards: every frame, window and tap; 0 <= t - pos(o) < length%s)" % ("" if is_vec else "; t + j < length"), loc)
+        else:
+            ctx.fail("C05-R6", fn, "wum term" if is_vec else "wuw term",
+                     "expected %s; term matches=%s, target index matches=%s, missing enclosing loops/bounds=%s, unexpected guards=%s" % (name, term == want, okshape, missing, extra), loc)
+    if seen != {"wum", "wuw"}:
+        ctx.fail("C05-R6", fn, "store set", "expected one accumulation into wum and one into wuw; recognised %s" % sorted(seen), b.loc())
+    # the iterator and index semantics the formulas rely on
+    pos_b = cm.body_or_fail(ctx, p, "C05-R6", "model::voice::window::WindowIndex::position")
+    if pos_b is not None:
+        r = show(ExprBuilder(pos_b).local(0))
+        if r == "Sub((self.index as isize), (Div(self.width, 2) as isize))":
+            ctx.ok("C05-R6", "WindowIndex::position = index - width/2", pos_b.loc())
+        else:
+            ctx.fail("C05-R6", pos_b.path, "position", "position = %s, expected index - width/2" % r, pos_b.loc())
+    idx_b = cm.body_or_fail(ctx, p, "C05-R6", "model::voice::window::WindowIndex::index")
+    if idx_b is not None:
+        r = show(ExprBuilder(idx_b).local(0))
+        if r == "self.index":
+            ctx.ok("C05-R6", "WindowIndex::index = the stored index", idx_b.loc())
+        else:
+            ctx.fail("C05-R6", idx_b.path, "index", "index() = %s" % r, idx_b.loc())
+    ir = cm.body_or_fail(ctx, p, "C05-R6", "model::voice::window::Window::iter_rev")
+    if ir is not None:
+        r = ExprBuilder(ir).local(0)
+        txt = show(r)
+        clos = [x for x in walk(r) if x[0] == "agg" and x[1].startswith("closure:")]
+        okc = False
+        for cl in clos:
+            cb = p.bodies.get(cl[1][len("closure:"):])
+            if cb is None:
+                continue
+            cr = ExprBuilder(cb).local(0)
+            # ((idx, coef), (start, width)) -> (WindowIndex::new(start + idx, width), *coef)
+            if cr[0] == "agg" and len(cr[2]) == 2 and cr[2][0][0] == "call" and cr[2][0][1].endswith("WindowIndex::new"):
+                a0, a1 = cr[2][0][2]
+                s0 = sorted([show(x) for x in (a0[2], a0[3])]) if a0[0] == "bin" and a0[1] == "Add" else []
+                if s0 == ["arg2.0.0", "arg2.1.0"] and show(a1) == "arg2.1.1" and show(cr[2][1]) == "arg2.0.1":
+                    okc = True
+        chain_ok = ("Iterator::enumerate(" in txt and "self.coefficients" in txt and "RangeFrom{start: start}" in txt and
+                    "std::iter::repeat(tuple(start, model::voice::window::Window::width(self)))" in txt and
+                    not any(s_ in txt for s_ in ("::skip(", "::take(", "::filter(", "::step_by(")))
+        if okc and chain_ok:
+            ctx.ok("C05-R6", "iter_rev(start) yields (WindowIndex(start + k, width), coefficients[start + k]) for every k (order irrelevant to the sums)", ir.loc())
+        else:
+            ctx.fail("C05-R6", ir.path, "tap iterator", "iter_rev no longer pairs coefficient start+k with WindowIndex(start+k, width) over all of coefficients[start..]: closure ok=%s, chain ok=%s (%s)" % (okc, chain_ok, txt[:200]), ir.loc())
+    wd = cm.body_or_fail(ctx, p, "C05-R6", "model::voice::window::Window::width")
+    if wd is not None:
+        r = show(ExprBuilder(wd).local(0))
+        if r == "len(self.coefficients)":
+            ctx.ok("C05-R6", "Window::width = coefficients.len()", wd.loc())
+        else:
+            ctx.fail("C05-R6", wd.path, "width", "width() = %s" % r, wd.loc())
